@@ -339,7 +339,7 @@ class SingleLoss:
 
     def evaluate(self, param_keys=(), observed_params=None, params=None):
         p = freeze(params if params is not None else self.params)
-        return self.loss.evaluate(p, self.batch(param_keys, observed_params))
+        return freeze(self.loss).evaluate(p, self.batch(param_keys, observed_params))   # the loss object is an argument too
 
     # ---- specification of the dynamic term
     def expected_dyn(self, param_keys=()):
@@ -518,7 +518,7 @@ class SystemLoss:
         return freeze(b)
 
     def evaluate(self, param_keys=()):
-        return self.loss.evaluate(freeze(self.params), self.batch(param_keys))
+        return freeze(self.loss).evaluate(freeze(self.params), self.batch(param_keys))
 
     def expected(self, param_keys=()):
         """per-term reference: dyn = sum_e w_e Mean(sum_c R_ec^2); others = sum_u w_u * (single-network term of u)"""
